@@ -22,6 +22,10 @@ def gen(rng, tier):
     ctx.weights = {"from_array": 4.0, "map_blocks": 3.0, "map_overlap": 2.0, "userfn": 2.5, "getitem": 4.0, "rechunk": 3.5,
                    "reduction": 2.0, "binary": 3.0}
     ctx.p_simsource = 1.0
+    ctx.p_asarray_false = rng.choice([0.0, 0.3, 0.6])
+    if rng.random() < 0.4:
+        ctx.enabled.add("raw_operand")
+        ctx.weights["raw_operand"] = 2.5
     ctx.p_masked = 0.0
     ctx.p_untokenizable = rng.choice([0.0, 0.2])
     ctx.rec_fns = True
